@@ -49,11 +49,11 @@ def comb_tree(n):
 
 
 def cases(tier, seed):
-    sp = tsspace.space("quick", renumber=("reverse",))
+    sp = tsspace.space("quick", renumber=("reverse", "rotate"))
     out = [{"tree": {"arg": a}} for a in sp.args]
     out += [{"tree": {"comb": n}} for n in range(5, 13)]
     if tier == "thorough":
-        sp2 = tsspace.space("thorough", renumber=("reverse",))
+        sp2 = tsspace.space("thorough", renumber=("reverse", "rotate"))
         out = [{"tree": {"arg": a}} for a in sp2.args] + [{"tree": {"comb": n}} for n in range(5, 13)]
     return {
         "cases": out,
